@@ -37,6 +37,7 @@ DrvClose(st, half) ==
   ELSE LET t1 == IF half THEN [st.tc EXCEPT !.w = FALSE] ELSE [st.tc EXCEPT !.r = FALSE, !.w = FALSE] IN
        IF t1.r \/ t1.w THEN [st EXCEPT !.tc = t1]
        ELSE IF t1.reading THEN [st EXCEPT !.tc = [t1 EXCEPT !.reading = FALSE, !.echo = TRUE], !.net = <<>>]
+       ELSE IF t1.echo THEN [st EXCEPT !.tc = t1]
        ELSE [st EXCEPT !.tc = [t1 EXCEPT !.dying = TRUE]]      \* the task unregisters it once it runs again
 
 \* TunnelLayer._handle_command for commands of the inner connection
